@@ -6,6 +6,7 @@ Require Import PV.Comb.PState PV.Comb.Bytes PV.Iter.Queue PV.Peg.Ast PV.Peg.Spec
   PV.Opt.SemTransfer PV.Opt.SemLaws PV.Opt.MapExpr PV.Opt.MapExprProofs PV.Opt.PassProofs PV.Opt.Unroll.
 
 Section UnrollSem.
+Variable ovf : bool.
 Variable G : grammar.
 Variable extras : bool.
 Variable uprop : name -> option (N -> bool).
@@ -30,38 +31,38 @@ Proof.
   - apply bs_rep1d; [now rewrite X|assumption].
 Qed.
 
-Lemma unroll_fn_equiv a e u : unroll_fn extras e = Some u -> equiv a e u.
+Lemma unroll_fn_equiv a e u : unroll_fn ovf extras e = Some u -> equiv a e u.
 Proof.
   destruct e; cbn [unroll_fn]; try (cbn [unroll_node]; intros [= <-]; apply equiv_refl).
   - cbn [unroll_node]. assert (K : forall v, (if extras then Some (ERepOnce e) else Some (ESeq e (ERep e))) = Some v ->
                  v = ERepOnce e \/ (extras = false /\ v = ESeq e (ERep e))) by (destruct extras; intros v [= <-]; auto).
     intros H. destruct (K _ H) as [->|[X ->]]; [apply equiv_refl|now apply reponce_equiv].
-  - destruct (fits _); [|discriminate]. now apply bounded_equiv.
-  - destruct (fits _); [|discriminate]. now apply bounded_equiv.
-  - destruct (fits _); [|discriminate]. now apply bounded_equiv.
-  - destruct (fits _); [|discriminate]. now apply bounded_equiv.
+  - destruct (negb ovf || fits _); [|discriminate]. now apply bounded_equiv.
+  - destruct (negb ovf || fits _); [|discriminate]. now apply bounded_equiv.
+  - destruct (negb ovf || fits _); [|discriminate]. now apply bounded_equiv.
+  - destruct (negb ovf || fits _); [|discriminate]. now apply bounded_equiv.
 Qed.
 
-Theorem unroll_expr_equiv a e e' : unroll_expr extras e = Some e' -> equiv a e e'.
+Theorem unroll_expr_equiv a e e' : unroll_expr ovf extras e = Some e' -> equiv a e e'.
 Proof.
   unfold unroll_expr. intros H.
-  apply (map_bottom_up_equiv G extras uprop w (fun _ => True) Inv HP a (unroll_fn extras)) in H.
+  apply (map_bottom_up_equiv G extras uprop w (fun _ => True) Inv HP a (unroll_fn ovf extras)) in H.
   - tauto.
   - intros x y _ E. split; [now apply unroll_fn_equiv|apply Forall_True].
   - apply Forall_True.
 Qed.
 End UnrollSem.
 
-Theorem unroll_grammar G G' extras uprop w : map_rules (unroll_rule extras) G = Some G' ->
+Theorem unroll_grammar ovf G G' extras uprop w : map_rules (unroll_rule ovf extras) G = Some G' ->
   forall a emit j p sg res, bs G' extras uprop w a emit j p sg res <-> bs G extras uprop w a emit j p sg res.
 Proof.
   intros H a emit j p sg res.
-  assert (Fsig : forall r r', unroll_rule extras r = Some r' -> rname r' = rname r /\ rty r' = rty r) by (intros r r'; apply with_expr_sig).
-  assert (Law : forall Gx r r' a0, unroll_rule extras r = Some r' -> equiv Gx extras uprop w (fun _ _ => True) a0 (rexpr r) (rexpr r')).
+  assert (Fsig : forall r r', unroll_rule ovf extras r = Some r' -> rname r' = rname r /\ rty r' = rty r) by (intros r r'; apply with_expr_sig).
+  assert (Law : forall Gx r r' a0, unroll_rule ovf extras r = Some r' -> equiv Gx extras uprop w (fun _ _ => True) a0 (rexpr r) (rexpr r')).
   { intros Gx r r' a0 E. apply with_expr_inv in E. eapply unroll_expr_equiv; [apply preserved_True|exact E]. }
   split; intros B.
-  - eapply (pass_backward G G' extras uprop w (fun _ => True) (fun _ _ => True) (unroll_rule extras)); eauto using preserved_True, Forall_True', jvalid_True.
-  - eapply (pass_forward G G' extras uprop w (fun _ => True) (fun _ _ => True) (unroll_rule extras)); eauto using preserved_True, Forall_True', jvalid_True.
+  - eapply (pass_backward G G' extras uprop w (fun _ => True) (fun _ _ => True) (unroll_rule ovf extras)); eauto using preserved_True, Forall_True', jvalid_True.
+  - eapply (pass_forward G G' extras uprop w (fun _ => True) (fun _ _ => True) (unroll_rule ovf extras)); eauto using preserved_True, Forall_True', jvalid_True.
 Qed.
 
 (* ---------- no panic: counts as the grammar reader produces them (non-zero where required, below u32::MAX) ---------- *)
@@ -81,7 +82,7 @@ Proof. destruct l as [|e r]; [congruence|]. intros _. destruct r as [|e2 r]; cbn
 Lemma repeat_nonempty {A} (x : A) n : 0 < n -> repeat x n <> [].
 Proof. destruct n; [lia|]. discriminate. Qed.
 
-Theorem unroll_expr_total extras e : counts_ok e = true -> exists e', unroll_expr extras e = Some e'.
+Theorem unroll_expr_total ovf extras e : counts_ok e = true -> exists e', unroll_expr ovf extras e = Some e'.
 Proof.
   unfold unroll_expr.
   induction e; cbn [counts_ok map_bottom_up]; intros C;
@@ -92,13 +93,13 @@ Proof.
   - destruct (IHe1 C) as [y1 ->]. destruct (IHe2 H) as [y2 ->]. cbn. eexists; reflexivity.
   - destruct (IHe1 C) as [y1 ->]. destruct (IHe2 H) as [y2 ->]. cbn. eexists; reflexivity.
   - destruct extras; eexists; reflexivity.
-  - apply N.ltb_lt in H, H0. unfold fits. replace (n + 1 <=? u32_max)%N with true by (symmetry; apply N.leb_le; lia).
+  - apply N.ltb_lt in H, H0. unfold fits. replace (n + 1 <=? u32_max)%N with true by (symmetry; apply N.leb_le; lia). rewrite orb_true_r.
     apply seq_of_nonempty. apply repeat_nonempty. lia.
-  - apply N.ltb_lt in H. unfold fits. replace (n + 2 <=? u32_max)%N with true by (symmetry; apply N.leb_le; lia).
+  - apply N.ltb_lt in H. unfold fits. replace (n + 2 <=? u32_max)%N with true by (symmetry; apply N.leb_le; lia). rewrite orb_true_r.
     apply seq_of_nonempty. unfold repeatn. destruct (repeat y (N.to_nat n)); discriminate.
-  - apply N.ltb_lt in H, H0. unfold fits. replace (n + 1 <=? u32_max)%N with true by (symmetry; apply N.leb_le; lia).
+  - apply N.ltb_lt in H, H0. unfold fits. replace (n + 1 <=? u32_max)%N with true by (symmetry; apply N.leb_le; lia). rewrite orb_true_r.
     apply seq_of_nonempty. apply repeat_nonempty. lia.
-  - apply N.ltb_lt in H, H0. unfold fits. replace (n + 1 <=? u32_max)%N with true by (symmetry; apply N.leb_le; lia).
+  - apply N.ltb_lt in H, H0. unfold fits. replace (n + 1 <=? u32_max)%N with true by (symmetry; apply N.leb_le; lia). rewrite orb_true_r.
     apply seq_of_nonempty. unfold repeatn. intros E. apply app_eq_nil in E. destruct E as [E1 E2].
     assert (L : List.length (repeat y (Nat.min (N.to_nat m) (N.to_nat n))) + List.length (repeat (EOpt y) (N.to_nat n - N.to_nat m)) = 0)
       by (rewrite E1, E2; reflexivity).
